@@ -48,9 +48,13 @@ A_CvEquals(xs, tn, td) == LET k == Len(xs) sum == A_Sum(xs) sq == A_Sum([i \in 1
 \* the variation criterion with a window of `sample` generations, asked at generation g (0-based) after the best fitness
 \* vectors fits[1..g+1]: not before the window is full; then every objective has to be quiet
 A_Window(fits, sample, g) == [i \in 1..sample |-> fits[g + 1 - sample + i]]
-A_MinVariationFires(fits, sample, g, tn, td) ==
+A_MinVariationQuiet(fits, sample, g, tn, td) ==
   /\ g >= sample - 1
   /\ \A o \in 1..Len(fits[1]) : A_CvAtMost([i \in 1..sample |-> A_Window(fits, sample, g)[i][o]], tn, td)
+\* a criterion that is not global is asked in every generation (the window is always recorded) but answers only in the
+\* exploitation phase of the population; phases[g + 1] is the phase at generation g
+A_MinVariationFires(fits, sample, g, tn, td, global, phases) ==
+  A_MinVariationQuiet(fits, sample, g, tn, td) /\ (global \/ phases[g + 1] = "exploitation")
 \* a window whose verdict hinges on an exact tie with the threshold is left out of the comparison (floating point rounding)
 A_MinVariationTie(fits, sample, g, tn, td) ==
   g >= sample - 1 /\ \E o \in 1..Len(fits[1]) : A_CvEquals([i \in 1..sample |-> A_Window(fits, sample, g)[i][o]], tn, td)
